@@ -378,7 +378,9 @@ func oracleC07() *Result {
 	rng := newRand("C07")
 	versions := "5.6,7.4"
 	var tasks []Task
-	add := func(b []byte, tag string) { tasks = append(tasks, Task{Oracle: "C07", Cfg: versions, Src: b, Tag: tag}) }
+	add := func(b []byte, tag string) {
+		tasks = append(tasks, Task{Oracle: "C07", Cfg: versions, Src: b, Tag: tag})
+	}
 	for _, c := range regressionInputs("C07") {
 		add(c, "regression")
 	}
